@@ -18,7 +18,7 @@ for d in sorted(glob.glob('/verif/seeded/*')):
 def run(job, slot):
     sid, p, harmless = job
     env = dict(os.environ, VSEED_ROOT=f'/tmp/vseed_{TAG}{slot}', GOFLAGS='-mod=mod', GOPROXY='off', GOSUMDB='off', GOTOOLCHAIN='local')
-    out = subprocess.run(['/verif/tools/seedtest.sh', f'/verif/seeded/{sid}/patch.diff', p], env=env, capture_output=True, text=True).stdout
+    out = subprocess.run([os.environ.get('VSEED_SRC', '/verif') + '/tools/seedtest.sh', f'/verif/seeded/{sid}/patch.diff', p], env=env, capture_output=True, text=True).stdout
     v = [l for l in out.splitlines() if l.startswith('VIOLATION')]
     nf = [l for l in v if 'no-failing-input-found' in l]
     if not v: verdict = 'OK(exit0)'
